@@ -159,7 +159,7 @@ def sh_crosscheck(ctx, n):
 def correspondence(ctx):
     core.assert_repo_loaded()
     corpus(ctx)
-    run_cases(ctx, [gen(ctx) for _ in range(ctx.pick(400, 8000))])
+    run_cases(ctx, [gen(ctx) for _ in range(ctx.pick(300, 8000))])
     if not ctx.quick:
         sh_crosscheck(ctx, 400)
 
